@@ -82,8 +82,8 @@ def _menu(driver, family, role, dim, form, law):
         m = ["UGLA", "UGLA", "MH", "CWMH"]
     elif role == "data":           # conditioned Gaussian distribution
         m = ["Direct", "Direct", "MH", "CWMH"] if hg else ["DirectLike", "DirectLike", "MH", "CWMH"]
-    elif role == "chain_inner":
-        m = ["MH", "CWMH", "PCN" if hg else "pCN"]
+    elif role in ("chain_inner", "chain_fork"):      # fork: two children -> MultipleLikelihoodPosterior, which pCN refuses
+        m = ["MH", "CWMH"] + ([("PCN" if hg else "pCN")] if role == "chain_inner" else [])
         if form == "model":
             m += ["LinearRTO", "LinearRTO", "MALA"] + (["NUTS"] if hg else [])
     elif role == "chain_last":
@@ -122,7 +122,7 @@ def _gen_model(rng, driver, law, force_family=None):
              "dims": [rng.randint(1, 3) for _ in names], "parents": parents}
         nchild = [sum(1 for q in parents[1:] if q == i) for i in range(k)]
         c["shape"] = "fork" if max(nchild) > 1 else "chain"
-        roles = {nm: ("chain_last" if nchild[i] == 0 else "chain_inner") for i, nm in enumerate(names)}
+        roles = {nm: ("chain_last" if nchild[i] == 0 else "chain_inner" if nchild[i] == 1 else "chain_fork") for i, nm in enumerate(names)}
         dims = dict(zip(names, c["dims"]))
         form = c["form"]
     else:
@@ -149,8 +149,8 @@ def cases(tier, seed):
     rng = core.rng_for(seed, PROPERTY, tier, "cases")
     mult = 1 if tier == "quick" else 10
     n_hg_trace, n_lg_trace = 44 * mult, 20 * mult
-    n_hg_law, n_lg_law = (20, 10) if tier == "quick" else (72, 36)
-    K_hg, K_lg = (900, 1200) if tier == "quick" else (4000, 5000)
+    n_hg_law, n_lg_law = (20, 10) if tier == "quick" else (64, 32)
+    K_hg, K_lg = (900, 1200) if tier == "quick" else (3000, 4000)
     def _K(base, sweeps):           # same cost per case whatever the number of sweeps (construction ~ 1.2 sweeps)
         return int(base * 3.2 / (sweeps + 1.2))
     trace, law = [], []
